@@ -589,6 +589,13 @@ class Engine(
             case BinaryOperationRelation(operation=Chain(), lhs=lhs, rhs=rhs):
                 lhs_executable = self._select_to_executable(cast(Select, lhs), extra_columns)
                 rhs_executable = self._select_to_executable(cast(Select, rhs), extra_columns)
+                # UNION [ALL] matches columns by position, not by name, and
+                # the operands' column sets need not iterate in the same order.
+                lhs_names = [c.name for c in lhs_executable.selected_columns]
+                rhs_names = [c.name for c in rhs_executable.selected_columns]
+                if lhs_names != rhs_names and sorted(lhs_names) == sorted(rhs_names):
+                    rhs_subquery = rhs_executable.subquery()
+                    rhs_executable = sqlalchemy.sql.select(*[rhs_subquery.columns[name] for name in lhs_names])
                 if select.has_deduplication:
                     executable = sqlalchemy.sql.union(lhs_executable, rhs_executable)
                 else:
